@@ -329,3 +329,32 @@ func genListener(emit func(string), tier string, rng *Rng) {
 		emit(strings.Join(toks, " "))
 	}
 }
+
+// listenerprobe <path>: writes Generated/ListenerFacts.lean — does the real listener deadlock with channel buffer size 0
+// (initially, and after Reset(WithChannelBuffer(0)))? The model's treatment of size 0 follows this fact, so that a repair
+// of KF-C14-1 in /repo (any repair that makes size 0 work like the smallest working size) needs no change of the model.
+func execListenerProbe(args []string) string {
+	if len(args) != 1 {
+		return "bad-op"
+	}
+	d := mdesc{num: int(mesgnum.FileId), f1: tsF{kind: '-'}, f253: tsF{kind: '-'}, f4: tsF{kind: '-'}, tag: 1, ft: 4}
+	a1 := execListener([]string{"g2", "s1", "n0", "m" + d.String(), "F"})
+	a2 := execListener([]string{"g2", "s1", "n1", "R0", "m" + d.String(), "F"})
+	dead1, dead2 := strings.HasSuffix(a1, "deadlock"), strings.HasSuffix(a2, "deadlock")
+	if dead1 != dead2 {
+		return "error size 0 behaves differently initially and after Reset: " + a1 + " / " + a2
+	}
+	s := "/-! GENERATED on every run by harness op `listenerprobe` (harness/fam_listener.go). Do not edit. -/\n" +
+		"namespace Fit.Listener.Generated\n" +
+		"/-- does `filedef.NewListener(filedef.WithChannelBuffer(0))` block forever at the first OnMesg on the current tree? -/\n" +
+		fmt.Sprintf("def buffer0Deadlocks : Bool := %v\n", dead1) +
+		"end Fit.Listener.Generated\n"
+	if old, err := os.ReadFile(args[0]); err != nil || string(old) != s {
+		if err := os.WriteFile(args[0], []byte(s), 0o644); err != nil {
+			return "error write"
+		}
+	}
+	return fmt.Sprintf("ok buffer0Deadlocks=%v", dead1)
+}
+
+func init() { executors["listenerprobe"] = execListenerProbe }
